@@ -11,27 +11,22 @@ namespace Bebop.Text
     appended ones is io.EOF, the reader's ending is untouched. -/
 structure Pres (t t' : TR) : Prop where
   pan : t.panicked = false → t'.panicked = false
-  ext : ∃ new, t'.errs = t.errs ++ new ∧ ∀ e ∈ new, e ≠ TErr.eof
+  ext : ∃ new, t'.errs = t.errs ++ new
   io : t'.ioFail = t.ioFail
 
-theorem Pres.rfl' (t : TR) : Pres t t := ⟨id, ⟨[], by simp, by simp⟩, rfl⟩
+theorem Pres.rfl' (t : TR) : Pres t t := ⟨id, ⟨[], by simp⟩, rfl⟩
 
 theorem Pres.trans {a b c : TR} (h1 : Pres a b) (h2 : Pres b c) : Pres a c := by
-  obtain ⟨n1, e1, f1⟩ := h1.ext
-  obtain ⟨n2, e2, f2⟩ := h2.ext
-  refine ⟨fun h => h2.pan (h1.pan h), ⟨n1 ++ n2, by rw [e2, e1, List.append_assoc], ?_⟩, by rw [h2.io, h1.io]⟩
-  intro e he
-  rcases List.mem_append.mp he with h | h
-  · exact f1 e h
-  · exact f2 e h
+  obtain ⟨n1, e1⟩ := h1.ext
+  obtain ⟨n2, e2⟩ := h2.ext
+  exact ⟨fun h => h2.pan (h1.pan h), ⟨n1 ++ n2, by rw [e2, e1, List.append_assoc]⟩, by rw [h2.io, h1.io]⟩
 
-theorem pres_addErr (t : TR) (e : TErr) (he : e ≠ .eof) : Pres t (addErr t e) :=
-  ⟨id, ⟨[e], rfl, by simp [he]⟩, rfl⟩
+theorem pres_addErr (t : TR) (e : TErr) : Pres t (addErr t e) := ⟨id, ⟨[e], rfl⟩, rfl⟩
 
-theorem pres_setNext (t : TR) (tk : Token) : Pres t (setNext t tk) := ⟨id, ⟨[], by simp [setNext], by simp⟩, rfl⟩
+theorem pres_setNext (t : TR) (tk : Token) : Pres t (setNext t tk) := ⟨id, ⟨[], by simp [setNext]⟩, rfl⟩
 
 theorem pres_of_fields (t t' : TR) (h1 : t'.panicked = t.panicked) (h2 : t'.errs = t.errs) (h3 : t'.ioFail = t.ioFail) :
-    Pres t t' := ⟨fun h => by rw [h1]; exact h, ⟨[], by simp [h2], by simp⟩, h3⟩
+    Pres t t' := ⟨fun h => by rw [h1]; exact h, ⟨[], by simp [h2]⟩, h3⟩
 
 /-- readByte: either a byte (and then UnreadByte is legal), or the state is unchanged. -/
 theorem readByte_cases (t : TR) :
@@ -63,7 +58,7 @@ theorem numberLoop_pres : ∀ (fuel : Nat) (t : TR) (conc : List Byte) (kind : T
       · exact hstep.trans (numberLoop_pres fuel _ _ _ _ _ _ _)
       · split
         · split
-          · exact hstep.trans (pres_addErr _ _ (by decide))
+          · exact hstep.trans (pres_addErr _ _)
           · exact hstep.trans (numberLoop_pres fuel _ _ _ _ _ _ _)
         · split
           · exact hstep.trans (numberLoop_pres fuel _ _ _ _ _ _ _)
@@ -72,12 +67,12 @@ theorem numberLoop_pres : ∀ (fuel : Nat) (t : TR) (conc : List Byte) (kind : T
             · split
               · exact hstep.trans (numberLoop_pres fuel _ _ _ _ _ _ _)
               · split
-                · exact hstep.trans (pres_addErr _ _ (by decide))
+                · exact hstep.trans (pres_addErr _ _)
                 · exact (pres_unread_after_read t c rest).trans (pres_setNext _ _)
     · rw [hr]; simp only; split
-      · exact pres_addErr _ _ (by decide)
+      · exact pres_addErr _ _
       · exact Pres.rfl' t
-    · rw [hr]; exact pres_addErr _ _ (by decide)
+    · rw [hr]; exact pres_addErr _ _
 
 theorem skipWs_pres : ∀ (fuel : Nat) (t : TR), Pres t (skipWs fuel t)
   | 0, t => by simp [skipWs]; exact Pres.rfl' t
@@ -101,8 +96,8 @@ theorem blockLoop_pres : ∀ (fuel : Nat) (t : TR) (conc : List Byte) (lb : Byte
       split
       · exact hstep.trans (skipWs_pres _ _)
       · exact hstep.trans (blockLoop_pres fuel _ _ _)
-    · rw [hr]; exact pres_addErr _ _ (by decide)
-    · rw [hr]; exact pres_addErr _ _ (by decide)
+    · rw [hr]; exact pres_addErr _ _
+    · rw [hr]; exact pres_addErr _ _
 
 theorem stringLoop_pres : ∀ (fuel : Nat) (t : TR) (conc : List Byte) (esc : Bool), Pres t (stringLoop fuel t conc esc).2
   | 0, t, _, _ => by simp [stringLoop]; exact Pres.rfl' t
@@ -114,15 +109,15 @@ theorem stringLoop_pres : ∀ (fuel : Nat) (t : TR) (conc : List Byte) (esc : Bo
       split
       · exact hstep
       · exact hstep.trans (stringLoop_pres fuel _ _ _)
-    · rw [hr]; exact pres_addErr _ _ (by decide)
-    · rw [hr]; exact pres_addErr _ _ (by decide)
+    · rw [hr]; exact pres_addErr _ _
+    · rw [hr]; exact pres_addErr _ _
 
 theorem lineComment_pres (t : TR) (conc : List Byte) : Pres t (lineCommentToken t conc).2 := by
   simp only [lineCommentToken]
   split
   · exact pres_of_fields _ _ rfl rfl rfl
   · split
-    · exact (pres_of_fields t { t with inp := [], last := _ } rfl rfl rfl).trans (pres_addErr _ _ (by decide))
+    · exact (pres_of_fields t { t with inp := [], last := _ } rfl rfl rfl).trans (pres_addErr _ _)
     · exact pres_of_fields _ _ rfl rfl rfl
 
 theorem blockComment_pres (t : TR) (conc : List Byte) : Pres t (blockCommentToken t conc).2 := by
@@ -132,20 +127,22 @@ theorem stringLit_pres (t : TR) (conc : List Byte) : Pres t (stringLiteralToken 
 theorem numberTok_pres (t : TR) (conc : List Byte) : Pres t (numberToken t conc).2 := by
   unfold numberToken; exact numberLoop_pres _ _ _ _ _ _ _ _
 
-/-- A token-tree continuation: preserves, and reports ok unless it added an error. -/
-def GoodK (k : TR → List Byte → Token × Bool × TR) : Prop :=
-  ∀ t conc, Pres t (k t conc).2.2 ∧ ((k t conc).2.1 = false → t.errs.length < (k t conc).2.2.errs.length)
+/-- A token-tree continuation: preserves, and either built a token or reports "no token" after recording
+    an error. It never reports a clean end of input (only the root of the tree does). -/
+def GoodK (k : TR → List Byte → Token × FR × TR) : Prop :=
+  ∀ t conc, Pres t (k t conc).2.2 ∧
+    ((k t conc).2.1 = .tok ∨ ((k t conc).2.1 = .no ∧ t.errs.length < (k t conc).2.2.errs.length))
 
 theorem goodK_simple (kd : TK) : GoodK (fun t conc => simple kd conc t) := by
-  intro t conc; exact ⟨Pres.rfl' t, by simp [simple]⟩
+  intro t conc; exact ⟨Pres.rfl' t, Or.inl rfl⟩
 
 theorem goodK_wrap (f : TR → List Byte → Token × TR) (hf : ∀ t conc, Pres t (f t conc).2) : GoodK (wrap f) := by
-  intro t conc; exact ⟨by simpa [wrap] using hf t conc, by simp [wrap]⟩
+  intro t conc; exact ⟨by simpa [wrap] using hf t conc, Or.inl rfl⟩
 
 theorem Pres.len {a b : TR} (h : Pres a b) : a.errs.length ≤ b.errs.length := by
-  obtain ⟨n, e, _⟩ := h.ext; rw [e]; simp
+  obtain ⟨n, e⟩ := h.ext; rw [e]; simp
 
-theorem expectOne_good (opts : List (Byte × (TR → List Byte → Token × Bool × TR)))
+theorem expectOne_good (opts : List (Byte × (TR → List Byte → Token × FR × TR)))
     (hne : opts ≠ []) (hk : ∀ o ∈ opts, GoodK o.2) : GoodK (fun t conc => expectOne t conc opts) := by
   intro t conc
   simp only [expectOne]
@@ -157,39 +154,58 @@ theorem expectOne_good (opts : List (Byte × (TR → List Byte → Token × Bool
       obtain ⟨c', k⟩ := o
       have hmem := List.mem_of_find?_eq_some hfind
       have := hk _ hmem { t with inp := rest, last := some c } (conc ++ [c])
-      exact ⟨hstep.trans this.1, fun h => by have := this.2 h; simpa using this⟩
+      exact ⟨hstep.trans this.1, by simpa using this.2⟩
     | none =>
       cases opts with
       | nil => exact absurd rfl hne
       | cons o os =>
         obtain ⟨c0, k⟩ := o
+        show Pres t (k (addErr { t with inp := rest, last := some c } .other) (conc ++ [c0])).2.2 ∧
+          ((k (addErr { t with inp := rest, last := some c } .other) (conc ++ [c0])).2.1 = .tok ∨
+           ((k (addErr { t with inp := rest, last := some c } .other) (conc ++ [c0])).2.1 = .no ∧
+            t.errs.length < (k (addErr { t with inp := rest, last := some c } .other) (conc ++ [c0])).2.2.errs.length))
         have hg := hk (c0, k) (by simp) (addErr { t with inp := rest, last := some c } .other) (conc ++ [c0])
+        simp only at hg
         have hadd : Pres t (addErr { t with inp := rest, last := some c } .other) :=
-          hstep.trans (pres_addErr _ _ (by decide))
-        refine ⟨hadd.trans hg.1, fun _ => ?_⟩
-        have := hg.1.len
-        simp [addErr] at this ⊢
-        omega
-  · rw [hr]; exact ⟨pres_addErr _ _ (by decide), fun _ => by simp [addErr]⟩
-  · rw [hr]; exact ⟨pres_addErr _ _ (by decide), fun _ => by simp [addErr]⟩
+          hstep.trans (pres_addErr _ _)
+        refine ⟨hadd.trans hg.1, ?_⟩
+        have hlen : t.errs.length + 1 ≤
+            (k (addErr { t with inp := rest, last := some c } .other) (conc ++ [c0])).2.2.errs.length := by
+          simpa [addErr] using hg.1.len
+        rcases hg.2 with h | ⟨h, _⟩
+        · exact Or.inl h
+        · exact Or.inr ⟨h, by omega⟩
+  · rw [hr]; exact ⟨pres_addErr _ _, Or.inr ⟨rfl, by simp [addErr]⟩⟩
+  · rw [hr]; exact ⟨pres_addErr _ _, Or.inr ⟨rfl, by simp [addErr]⟩⟩
 
-/-- The result of findFirst: new errors are appended; io.EOF is recorded only when the input is exhausted
-    and then it is the only new error; "not ok and nothing new" means a byte was just read (so UnreadByte
-    is legal). -/
-structure FF (t : TR) (r : Token × Bool × TR) : Prop where
+/-- The result of findFirst: errors are only appended; a clean end of input (`eof`) adds none and leaves
+    nothing unread; "no token here and nothing new" means a byte was just read (so UnreadByte is legal). -/
+structure FF (t : TR) (r : Token × FR × TR) : Prop where
   pan : t.panicked = false → r.2.2.panicked = false
   io : r.2.2.ioFail = t.ioFail
-  ext : (∃ new, r.2.2.errs = t.errs ++ new ∧ ∀ e ∈ new, e ≠ TErr.eof) ∨
-        (r.2.2.errs = t.errs ++ [TErr.eof] ∧ r.2.2.inp = [] ∧ r.2.2.ioFail = false ∧ r.2.1 = false)
-  unread : r.2.1 = false → r.2.2.errs.length = t.errs.length → r.2.2.last.isSome = true
+  ext : ∃ new, r.2.2.errs = t.errs ++ new
+  eof : r.2.1 = .eof → r.2.2.inp = [] ∧ r.2.2.ioFail = false ∧ r.2.2.errs = t.errs
+  unread : r.2.1 = .no → r.2.2.errs.length = t.errs.length → r.2.2.last.isSome = true
 
-theorem FF.of_good {t : TR} {r : Token × Bool × TR} (h : Pres t r.2.2)
-    (hk : r.2.1 = false → t.errs.length < r.2.2.errs.length) : FF t r :=
-  ⟨h.pan, h.io, Or.inl h.ext, fun h1 h2 => by have := hk h1; omega⟩
+theorem FF.of_good {t : TR} {r : Token × FR × TR} (h : Pres t r.2.2)
+    (hk : r.2.1 = .tok ∨ (r.2.1 = .no ∧ t.errs.length < r.2.2.errs.length)) : FF t r where
+  pan := h.pan
+  io := h.io
+  ext := h.ext
+  eof := by
+    intro h1
+    rcases hk with hk | hk
+    · rw [h1] at hk; cases hk
+    · rw [h1] at hk; cases hk.1
+  unread := by
+    intro h1 h2
+    rcases hk with hk | hk
+    · rw [h1] at hk; cases hk
+    · omega
 
-theorem FF.after_read {t : TR} {c : Byte} {rest : List Byte} {r : Token × Bool × TR}
+theorem FF.after_read {t : TR} {c : Byte} {rest : List Byte} {r : Token × FR × TR}
     (h : FF { t with inp := rest, last := some c } r) : FF t r :=
-  ⟨h.pan, h.io, h.ext, h.unread⟩
+  ⟨h.pan, h.io, h.ext, h.eof, h.unread⟩
 
 theorem findFirst_ff : ∀ (fuel : Nat) (t : TR), t.inp.length < fuel → FF t (findFirst fuel t)
   | 0, t, h => by omega
@@ -197,7 +213,7 @@ theorem findFirst_ff : ∀ (fuel : Nat) (t : TR), t.inp.length < fuel → FF t (
     simp only [findFirst]
     rcases readByte_cases t with ⟨c, rest, hi, hr⟩ | ⟨hnil, hio, hr⟩ | ⟨_, _, hr⟩
     · rw [hr]; simp only
-      have good : ∀ (k : TR → List Byte → Token × Bool × TR) (conc : List Byte), GoodK k →
+      have good : ∀ (k : TR → List Byte → Token × FR × TR) (conc : List Byte), GoodK k →
           FF t (k { t with inp := rest, last := some c } conc) := by
         intro k conc hk
         have := hk { t with inp := rest, last := some c } conc
@@ -230,15 +246,14 @@ theorem findFirst_ff : ∀ (fuel : Nat) (t : TR), t.inp.length < fuel → FF t (
           · exact goodK_wrap _ lineComment_pres))
       split
       -- '-' : one more byte
-      · rename_i hminus
-        rcases readByte_cases { t with inp := rest, last := some c } with ⟨d, rest2, hi2, hr2⟩ | ⟨_, _, hr2⟩ | ⟨_, _, hr2⟩
+      · rcases readByte_cases { t with inp := rest, last := some c } with ⟨d, rest2, hi2, hr2⟩ | ⟨_, _, hr2⟩ | ⟨_, _, hr2⟩
         · rw [hr2]; simp only
           have hstep : Pres t { t with inp := rest2, last := some d } := pres_of_fields _ _ rfl rfl rfl
-          have good2 : ∀ (k : TR → List Byte → Token × Bool × TR) (conc : List Byte), GoodK k →
+          have good2 : ∀ (k : TR → List Byte → Token × FR × TR) (conc : List Byte), GoodK k →
               FF t (k { t with inp := rest2, last := some d } conc) := by
             intro k conc hk
             have := hk { t with inp := rest2, last := some d } conc
-            exact FF.of_good (hstep.trans this.1) (fun h => by have := this.2 h; simpa using this)
+            exact FF.of_good (hstep.trans this.1) (by simpa using this.2)
           split
           · exact good2 _ _ (goodK_wrap _ numberTok_pres)
           · split
@@ -247,18 +262,154 @@ theorem findFirst_ff : ∀ (fuel : Nat) (t : TR), t.inp.length < fuel → FF t (
                 exact expectOne_good _ (by simp) (by intro o ho; simp at ho; subst ho; exact goodK_simple _)))
             · split
               · exact good2 _ _ (goodK_simple _)
-              · exact FF.of_good (hstep.trans (pres_addErr _ _ (by decide))) (by simp [simple])
+              · exact FF.of_good (hstep.trans (pres_addErr _ _)) (Or.inl rfl)
         · rw [hr2]
           exact FF.of_good ((pres_of_fields t { t with inp := rest, last := some c } rfl rfl rfl).trans
-            (pres_addErr _ _ (by decide))) (fun _ => by simp [addErr])
+            (pres_addErr _ _)) (Or.inr ⟨rfl, by simp [addErr]⟩)
         · rw [hr2]
           exact FF.of_good ((pres_of_fields t { t with inp := rest, last := some c } rfl rfl rfl).trans
-            (pres_addErr _ _ (by decide))) (fun _ => by simp [addErr])
+            (pres_addErr _ _)) (Or.inr ⟨rfl, by simp [addErr]⟩)
       -- no byte-driven token starts here
-      · exact ⟨fun h => h, rfl, Or.inl ⟨[], by simp, by simp⟩, fun _ _ => rfl⟩
+      · exact ⟨fun h => h, rfl, ⟨[], by simp⟩, (fun h => by cases h), fun _ _ => rfl⟩
     · rw [hr]
-      exact ⟨fun h => h, rfl, Or.inr ⟨rfl, hnil, hio, rfl⟩, fun _ h => by simp [addErr] at h⟩
+      exact ⟨fun h => h, rfl, ⟨[], by simp⟩, (fun _ => ⟨hnil, hio, rfl⟩), (fun h => by cases h)⟩
     · rw [hr]
-      exact FF.of_good (pres_addErr _ _ (by decide)) (fun _ => by simp [addErr])
+      exact FF.of_good (pres_addErr _ _) (Or.inr ⟨rfl, by simp [addErr]⟩)
+
+theorem identLoop_pres : ∀ (fuel : Nat) (t : TR) (conc : List Byte), Pres t (identLoop fuel t conc).2
+  | 0, t, conc => by simpa [identLoop] using pres_setNext t _
+  | fuel+1, t, conc => by
+    simp only [identLoop]
+    split
+    · split
+      · exact pres_addErr _ _
+      · exact pres_setNext t _
+    · rename_i c rest _
+      split
+      · exact pres_of_fields _ _ rfl rfl rfl
+      · split
+        · have h1 : Pres t { t with inp := rest, last := some c } := pres_of_fields _ _ rfl rfl rfl
+          exact h1.trans (identLoop_pres fuel _ _)
+        · have h1 : Pres t { t with last := none } := pres_of_fields _ _ rfl rfl rfl
+          exact h1.trans (pres_setNext _ _)
+
+/-- `Next` never panics: every UnreadByte directly follows a successful ReadByte. -/
+theorem next_no_panic (t : TR) (h : t.panicked = false) : (next t).2.panicked = false := by
+  unfold next
+  by_cases hk : t.keep = true
+  · simp [hk, h]
+  · simp only [hk, Bool.false_eq_true, if_false]
+    have ff := findFirst_ff (t.inp.length + 1) t (by omega)
+    obtain ⟨tk, r, t1, hr⟩ : ∃ tk r t1, findFirst (t.inp.length + 1) t = (tk, r, t1) := ⟨_, _, _, rfl⟩
+    rw [hr] at ff ⊢
+    have hp1 : t1.panicked = false := ff.pan h
+    simp only
+    by_cases he : (r == FR.eof) = true
+    · simp [he, hp1]
+    · simp only [he, Bool.false_eq_true, if_false]
+      by_cases hu : (t1.errs.getLast? == some TErr.ueof) = true
+      · simp [hu, hp1]
+      · simp only [hu, Bool.false_eq_true, if_false]
+        by_cases hf : (!t1.errs.isEmpty && r != FR.tok && decide (t1.errs.length > t.errs.length)) = true
+        · simp [hf, hp1]
+        · simp only [hf, Bool.false_eq_true, if_false]
+          by_cases ht : (r == FR.tok) = true
+          · simp [ht, setNext, hp1]
+          · simp only [ht, Bool.false_eq_true, if_false]
+            have hrno : r = .no := by
+              cases r
+              · exact absurd (by decide) ht
+              · rfl
+              · exact absurd (by decide) he
+            -- nothing new was recorded, so findFirst stopped right after reading a byte
+            have hlen : t1.errs.length = t.errs.length := by
+              obtain ⟨new, hn⟩ := ff.ext
+              simp only at hn
+              have hge : t.errs.length ≤ t1.errs.length := by rw [hn]; simp
+              by_cases hem : t1.errs.isEmpty = true
+              · have h0 : t1.errs.length = 0 := by simpa [List.isEmpty_iff] using hem
+                omega
+              · have : ¬ t1.errs.length > t.errs.length := by
+                  intro hgt
+                  apply hf
+                  simp [hem, hrno, hgt]
+                omega
+            have hlast := ff.unread hrno hlen
+            simp only at hlast
+            have hun : (unreadByte t1).panicked = false := by
+              unfold unreadByte
+              cases hl : t1.last with
+              | none => rw [hl] at hlast; simp at hlast
+              | some c => simpa using hp1
+            simp only [hun, Bool.false_eq_true, if_false]
+            split
+            · simpa [addErr] using hun
+            · split
+              · simpa using hun
+              · split
+                · exact (identLoop_pres _ _ _).pan (by simpa using hun)
+                · simpa [addErr] using hun
+
+theorem identLoop_false : ∀ (fuel : Nat) (t : TR) (conc : List Byte),
+    (identLoop fuel t conc).1 = false → (identLoop fuel t conc).2.errs ≠ [] ∨ (identLoop fuel t conc).2.nonAscii = true
+  | 0, t, conc => by simp [identLoop]
+  | fuel+1, t, conc => by
+    simp only [identLoop]
+    split
+    · split
+      · intro _; left; simp [addErr]
+      · simp
+    · split
+      · intro _; right; rfl
+      · split
+        · exact identLoop_false fuel _ _
+        · simp
+
+/-- `Next` can only return false with an empty error list at the clean end of the input: everything has
+    been read and the reader ended with EOF, not with an I/O error. -/
+theorem next_false_clean (t : TR) (hf : (next t).1 = false)
+    (he : (next t).2.errs = []) (hn : (next t).2.nonAscii = false) (hnp : (next t).2.panicked = false) :
+    (next t).2.inp = [] ∧ (next t).2.ioFail = false := by
+  revert hf he hn hnp
+  unfold next
+  by_cases hk : t.keep = true
+  · simp [hk]
+  · simp only [hk, Bool.false_eq_true, if_false]
+    have ff := findFirst_ff (t.inp.length + 1) t (by omega)
+    obtain ⟨tk, r, t1, hr⟩ : ∃ tk r t1, findFirst (t.inp.length + 1) t = (tk, r, t1) := ⟨_, _, _, rfl⟩
+    rw [hr] at ff ⊢
+    simp only
+    by_cases hre : (r == FR.eof) = true
+    · have : r = .eof := by cases r <;> first | rfl | exact absurd hre (by decide)
+      have h := ff.eof this
+      simp only [hre, if_true]
+      intro _ _ _ _
+      exact ⟨h.1, h.2.1⟩
+    · simp only [hre, Bool.false_eq_true, if_false]
+      by_cases hu : (t1.errs.getLast? == some TErr.ueof) = true
+      · simp only [hu, if_true]
+        intro _ he
+        rw [he] at hu; simp at hu
+      · simp only [hu, Bool.false_eq_true, if_false]
+        by_cases hfl : (!t1.errs.isEmpty && r != FR.tok && decide (t1.errs.length > t.errs.length)) = true
+        · simp only [hfl, if_true]
+          intro _ he
+          rw [he] at hfl; simp at hfl
+        · simp only [hfl, Bool.false_eq_true, if_false]
+          by_cases ht : (r == FR.tok) = true
+          · simp [ht]
+          · simp only [ht, Bool.false_eq_true, if_false]
+            split
+            · intro _ _ _ hpan; simp_all
+            · split
+              · intro _ he; simp [addErr] at he
+              · split
+                · intro _ _ hn; simp at hn
+                · split
+                  · intro hf he hn _
+                    rcases identLoop_false _ _ _ hf with h | h
+                    · exact absurd he h
+                    · rw [hn] at h; cases h
+                  · intro _ he; simp [addErr] at he
 
 end Bebop.Text
